@@ -1,5 +1,5 @@
 \* retry logic, exhaustive: 3 tokens, buffer of 3, 3 attempts, up to 2 failing attempts
-CONSTANTS M = 3 N = 3 MaxAttempts = 3 MaxFail = 2 StaleReader = FALSE LockStep = FALSE BufferAll = FALSE
+CONSTANTS M = 3 N = 3 MaxAttempts = 3 MaxFail = 2 StaleReader = FALSE LockStep = FALSE BufferAll = FALSE Timers = {}
 SPECIFICATION Spec
 CHECK_DEADLOCK FALSE
 INVARIANTS AckedIntegrity AtMostThree
